@@ -350,6 +350,14 @@ func (o *Origins) compute(v ssa.Value) *Ex {
 		return o.phi(x)
 	case *ssa.Slice:
 		if x.Low == nil && x.High == nil && x.Max == nil {
+			// h[:] of a local byte array (hash results): the bytes are the cell's content at this point
+			if al, ok := x.X.(*ssa.Alloc); ok {
+				if arr, ok := al.Type().Underlying().(*types.Pointer).Elem().Underlying().(*types.Array); ok {
+					if bt, ok := arr.Elem().Underlying().(*types.Basic); ok && bt.Kind() == types.Uint8 {
+						return o.reaching(al, nil, x, x.Block(), instrIndex(x))
+					}
+				}
+			}
 			// x[:] of an array pointer or slice: same elements
 			return o.Of(x.X)
 		}
